@@ -776,6 +776,50 @@ class EpochGen:
         return L
 
 
+def replay_identity_motif(g, rng, with_failure):
+    """workload-placement motif (biasing, not an oracle), appended as one more epoch: a tensor whose
+    ndarray is a view of a hidden array (mg.roll over the flattened operand) gets a view whose op
+    hands back the operand array ITSELF (squeeze with nothing to squeeze: a registered view, as the
+    array has a .base); in-place updates on the owner then make MyGrad re-create that view on a new
+    base array that owns its memory - the path repaired by fix 18 (DESIGN 8.4).  A failing in-place
+    update in between exercises the rollback over such a family.  Drawn from its own PRNG after
+    everything else, so that the histories of all other runs are unchanged."""
+    old_r = g.r
+    g.r = rng
+    try:
+        n = rng.choice([2, 3, 4])
+        shape = (n,) if rng.random() < 0.6 else (2, n)
+        x = g.leaf(shape=shape, dtype="f8", constant=None)
+        if x is None:
+            return
+        y = g._emit_op("roll", [{"t": x}], {"shift": rng.randint(-3, 3), "axis": None}, spell="f", view_src=x)
+        if y is None:
+            return
+        z = g._emit_op("squeeze", [{"t": y}], {"axis": None}, view_src=y)
+        if z is None:
+            return
+        if rng.random() < 0.5:
+            g.op_view(rng.choice([y, z]))
+        steps = ["iop", "setitem", "ufunc", "fail" if with_failure else "iop", "iop"]
+        rng.shuffle(steps)
+        for k in steps[: rng.randint(2, 5)]:
+            tgt = y if rng.random() < 0.8 else z
+            if k == "iop":
+                g.inplace_iop(tgt)
+            elif k == "setitem":
+                g.inplace_setitem(tgt, adv_p=0.2)
+            elif k == "ufunc":
+                g.inplace_ufunc(tgt)
+            else:
+                if rng.random() < 0.5:
+                    g.emit({"k": "inplace", "form": "setitem", "tgt": tgt, "index": enc_index(Ellipsis), "args": [{"n": enc_arr(np.ones((7, 5, 3)))}], "fail": 1})
+                else:
+                    g.emit({"k": "inplace", "form": "ufunc", "op": "add", "tgt": tgt, "args": [{"n": enc_arr(np.ones((7, 5, 3)))}, {"c": 1.0}], "fail": 1})
+    finally:
+        g.r = old_r
+
+
+
 class C04(Prop):
     id = "C04"
     title = "views and in-place updates mirror NumPy"
@@ -809,6 +853,8 @@ class C04(Prop):
         eg = EpochGen(g, {"weights": w, "max_events": rng.choice([8, 14, 22]), "adv_p": rng.choice([0.2, 0.5])})
         eg.run(rng.randint(1, 3 + DEPTH - 1))
         add_faults(g, g.ev, rng, cfg)
+        if rng.random() < 0.12:
+            replay_identity_motif(g, random.Random(rng.getrandbits(64)), with_failure=cfg["lane"] == "faults")
         return {"prop": self.id, "cfg": cfg, "events": g.ev}
 
     def observers(self, hist):
@@ -1365,6 +1411,8 @@ class C13(Prop):
                 g.backward(g.choice(hs))
         # a bad seed as a failing backward
         add_faults(g, g.ev, rng, cfg)
+        if cfg["lane"] == "epoch" and rng.random() < 0.12:
+            replay_identity_motif(g, random.Random(rng.getrandbits(64)), with_failure=True)
         return {"prop": self.id, "cfg": cfg, "events": g.ev}
 
     def observers(self, hist):
